@@ -275,7 +275,7 @@ func c07(c *core.Check) {
 	c.Extra["uncovered_variable_index_sites"] = unc
 
 	// R1b: the one-element InitialValues literals expandBackground indexes at 0
-	r1b := c.Rule("R1b", "the InitialValues literals of the background-* list properties hold at least one element (expandBackground reads element 0)", 7)
+	r1b := c.Rule("R1b", "the InitialValues literals of the background-* list properties hold at least one element (expandBackground reads element 0)", 5)
 	if iv, err := p.Table("css/properties", "InitialValues"); err == nil {
 		for _, e := range iv {
 			name := ""
@@ -409,18 +409,18 @@ func c07(c *core.Check) {
 	}
 
 	// ---- R4 divisions
-	r4 := c.Rule("R4", "every integer / and % in scope has a divisor proven non-zero; a % result used as an index has a non-negative dividend", 3)
+	r4 := c.Rule("R4", "every integer / and % in scope has a divisor proven non-zero; a % result used as an index has a non-negative dividend", 1)
 	divisionRule(c, r4, func(fn *ssa.Function) bool { return inScope[fn] })
 
 	// ---- R5 dispatch tables total, validators entered with tokens
-	r5 := c.Rule("R5", "validators[...] is indexed only under the allValidators membership test and is long enough for every property; expanders has an entry for every shorthand NewShortand can return; validators and expanders are only called with a non-empty token list", 6)
+	r5 := c.Rule("R5", "validators[...] is indexed only under the allValidators membership test and is long enough for every property; expanders has an entry for every shorthand NewShortand can return; validators and expanders are only called with a non-empty token list", 4)
 	c07Dispatch(c, r5, eng)
 
-	r6 := c.Rule("R6", "the guard the path interpreter's indexed reads rest on: hasSetsOrMore(sz, …) returns true only for a list of at least sz numbers made of whole groups of sz (decided by path-condition reachability of its `return true` under three refusing scenarios)", 3)
+	r6 := c.Rule("R6", "the guard the path interpreter's indexed reads rest on: hasSetsOrMore(sz, …) returns true only for a list of at least sz numbers made of whole groups of sz (decided by path-condition reachability of its `return true` under three refusing scenarios)", 1)
 	groupGuardRule(c, r6)
 	c07GridAreas(c)
 	c07TestedPositions(c, scope)
-	r10 := c.Rule("R10", "the recursive descent of the CSS tokenizer is bounded: every recursive call of consumeValueList goes through a guard that tests a depth counter against a constant, increments it before the call and decrements it after (stack exhaustion cannot be recovered from)", 5)
+	r10 := c.Rule("R10", "the recursive descent of the CSS tokenizer is bounded: every recursive call of consumeValueList goes through a guard that tests a depth counter against a constant, increments it before the call and decrements it after (stack exhaustion cannot be recovered from)", 3)
 	depthGuardRule(c, r10)
 	r11 := c.Rule("R11", "the two byte scanners (CSS tokenizer, selector parser) never read their buffer out of range: every index and slice of the buffer, every new value of the cursor (<= length) and every precondition \"cursor + k <= length\" that a callee needs is implied by the tests that dominate it, by the invariant 0 <= cursor <= length (itself proved at every store) and by the contracts of strings.Index, HasPrefix, DecodeRune and RuneLen; linear arithmetic over cursor versions, decided by elimination; sites resting on a regexp contract or on the saved position of the previous token are named", 250)
 	scannerBoundsRule(c, r11)
